@@ -158,61 +158,6 @@ func c19Schemas() []func() *c19Schema {
 			return s
 		},
 		func() *c19Schema {
-			s := &c19Schema{name: "slice defaults whose Go type differs from the destination's by name only (Default([]string) into a named list type and the reverse); PostTransforms and the caller mutate what they are given"}
-			def := []string{"a", "b"}
-			ndef := c19Tags{"x", "y"}
-			own(&s.owned, "plain slice default for a named destination", def)
-			own(&s.owned, "named slice default for a plain destination", ndef)
-			mutNamed := func(p any, ctx z.Ctx) error {
-				t := p.(*c19Tags)
-				if len(*t) > 0 {
-					(*t)[0] += "!"
-				}
-				return nil
-			}
-			rec := z.Struct(z.Schema{"tags": z.Slice(z.String()).Default(def).PostTransform(mutNamed)})
-			top := z.Slice(z.String()).Default(ndef).PostTransform(c19MutStrings)
-			topNamed := z.Slice(z.String()).Default(def)
-			own(&s.objects, "record schema", rec)
-			own(&s.objects, "top-level schema", top)
-			own(&s.objects, "top-level schema with a named destination", topNamed)
-			inEmpty := map[string]any{}
-			own(&s.inputs, "input empty map", inEmpty)
-			s.events = []c19Event{
-				{"record Validate(zero) default taken, caller edits the result", func() (string, any) {
-					var d c19TagDoc
-					m := rec.Validate(&d)
-					o := c19Obs(m, d)
-					if len(d.Tags) > 1 {
-						d.Tags[1] = "changed by caller"
-					}
-					return o, []string(d.Tags)
-				}},
-				{"record Parse({}) default taken, caller edits the result", func() (string, any) {
-					var d c19TagDoc
-					m := rec.Parse(inEmpty, &d)
-					o := c19Obs(m, d)
-					if len(d.Tags) > 1 {
-						d.Tags[1] = "changed by caller"
-					}
-					return o, []string(d.Tags)
-				}},
-				{"top Validate(nil slice) named default taken", func() (string, any) { var d []string; m := top.Validate(&d); return c19Obs(m, d), d }},
-				{"top Validate(empty slice) named default taken", func() (string, any) { d := []string{}; m := top.Validate(&d); return c19Obs(m, d), d }},
-				{"top Parse(nil) named default taken", func() (string, any) { var d []string; m := top.Parse(nil, &d); return c19Obs(m, d), d }},
-				{"top Validate(nil named slice) plain default taken, caller edits the result", func() (string, any) {
-					var d c19Tags
-					m := topNamed.Validate(&d)
-					o := c19Obs(m, d)
-					if len(d) > 0 {
-						d[0] = "changed by caller"
-					}
-					return o, []string(d)
-				}},
-			}
-			return s
-		},
-		func() *c19Schema {
 			s := &c19Schema{name: "Go pointers as input to Ptr schemas whose pointee is caught / transformed; pointer elements of inputs and defaults"}
 			age, name, e1, e2, d1, d2 := -5, "ann", "p", "q", "a", "b"
 			pAge, pName := &age, &name
@@ -580,6 +525,61 @@ func c19Schemas() []func() *c19Schema {
 					var d map[string]string
 					m := z.CustomFunc(func(p *map[string]string, c z.Ctx) bool { return len(*p) == 1 }).Parse(in["labels"], &d)
 					return c19Obs(m, d), nil
+				}},
+			}
+			return s
+		},
+		func() *c19Schema {
+			s := &c19Schema{name: "slice defaults whose Go type differs from the destination's by name only (Default([]string) into a named list type and the reverse); PostTransforms and the caller mutate what they are given"}
+			def := []string{"a", "b"}
+			ndef := c19Tags{"x", "y"}
+			own(&s.owned, "plain slice default for a named destination", def)
+			own(&s.owned, "named slice default for a plain destination", ndef)
+			mutNamed := func(p any, ctx z.Ctx) error {
+				t := p.(*c19Tags)
+				if len(*t) > 0 {
+					(*t)[0] += "!"
+				}
+				return nil
+			}
+			rec := z.Struct(z.Schema{"tags": z.Slice(z.String()).Default(def).PostTransform(mutNamed)})
+			top := z.Slice(z.String()).Default(ndef).PostTransform(c19MutStrings)
+			topNamed := z.Slice(z.String()).Default(def)
+			own(&s.objects, "record schema", rec)
+			own(&s.objects, "top-level schema", top)
+			own(&s.objects, "top-level schema with a named destination", topNamed)
+			inEmpty := map[string]any{}
+			own(&s.inputs, "input empty map", inEmpty)
+			s.events = []c19Event{
+				{"record Validate(zero) default taken, caller edits the result", func() (string, any) {
+					var d c19TagDoc
+					m := rec.Validate(&d)
+					o := c19Obs(m, d)
+					if len(d.Tags) > 1 {
+						d.Tags[1] = "changed by caller"
+					}
+					return o, []string(d.Tags)
+				}},
+				{"record Parse({}) default taken, caller edits the result", func() (string, any) {
+					var d c19TagDoc
+					m := rec.Parse(inEmpty, &d)
+					o := c19Obs(m, d)
+					if len(d.Tags) > 1 {
+						d.Tags[1] = "changed by caller"
+					}
+					return o, []string(d.Tags)
+				}},
+				{"top Validate(nil slice) named default taken", func() (string, any) { var d []string; m := top.Validate(&d); return c19Obs(m, d), d }},
+				{"top Validate(empty slice) named default taken", func() (string, any) { d := []string{}; m := top.Validate(&d); return c19Obs(m, d), d }},
+				{"top Parse(nil) named default taken", func() (string, any) { var d []string; m := top.Parse(nil, &d); return c19Obs(m, d), d }},
+				{"top Validate(nil named slice) plain default taken, caller edits the result", func() (string, any) {
+					var d c19Tags
+					m := topNamed.Validate(&d)
+					o := c19Obs(m, d)
+					if len(d) > 0 {
+						d[0] = "changed by caller"
+					}
+					return o, []string(d)
 				}},
 			}
 			return s
